@@ -1,15 +1,17 @@
-(** C14: transaction commit/discard call order. *)
+(** C14: the call order of transaction.Commit / Discard, regenerated from the Go source,
+    satisfies the order constraints the proofs in proofs/Txn_proofs.v rely on
+    (status read and checked before any write; commit object before its ref; status
+    update last; Discard checks the status before deleting staged refs). *)
 From Coq Require Import List NArith String Bool.
 From W.gen Require Import Extracted TieLib.
+From W.model Require Import Txn.
 Import ListNotations.
 Open Scope string_scope.
-Example tie_tx_commit :
-  before "rs.GetTransaction" "objects.SaveCommit" skel_tx_commit
-  && before "rs.GetTransactionLogs" "objects.SaveCommit" skel_tx_commit
-  && before "objects.SaveCommit" "ref.SaveRef" skel_tx_commit
-  && before "ref.SaveRef" "rs.UpdateTransaction" skel_tx_commit = true.
+
+Example tie_tx_commit : txn_skel_ok_strict txn_commit_skel = true.
 Proof. vm_compute; reflexivity. Qed.
-Example tie_tx_discard :
-  before "rs.GetTransaction" "ref.DeleteTransactionRefs" skel_tx_discard
-  && before "ref.DeleteTransactionRefs" "rs.DeleteTransaction" skel_tx_discard = true.
+Example tie_tx_discard : txn_discard_skel_ok_strict txn_discard_skel = true.
 Proof. vm_compute; reflexivity. Qed.
+(* the pre-repair skeletons are rejected by the same checkers *)
+Example tie_tx_v0_rejected : txn_skel_ok_strict txn_commit_skel_v0 = false /\ txn_discard_skel_ok_strict txn_discard_skel_v0 = false.
+Proof. split; vm_compute; reflexivity. Qed.
